@@ -328,7 +328,7 @@ func VH_C12_Fund() {
 		n := vnondetLen("batchsize", 1, 2)
 		var us []*UTXO
 		for i := 0; i < n; i++ {
-			u := &UTXO{TxID: vnondetBytes("utxo-txid", 32, 32), Vout: vnondetU32("utxo-vout"), Satoshis: vnondetRange("utxo-sats", 0, vMaxSats), LockingScript: vp2pkhScript("utxo-pkh")}
+			u := &UTXO{TxID: vnondetBytes("utxo-txid", 32, 32), Vout: vnondetU32("utxo-vout"), Satoshis: vnondetRange("utxo-sats", 0, vMaxSats), LockingScript: vp2pkhScript("utxo-pkh"), SequenceNumber: vnondetU32("utxo-seq")}
 			us = append(us, u)
 			given = append(given, u)
 		}
